@@ -41,8 +41,12 @@ func init() {
 	})
 }
 
+// c16FileTime is the modification time every configuration file of the file-based histories gets.
+var c16FileTime = time.Unix(1700000000, 0)
+
 type docLoader interface {
 	Unmarshal([]byte) error
+	Load(path string) error
 	Config() chan config.ServerConfig
 }
 
@@ -204,6 +208,7 @@ var c16Edits = []string{"drop-prefix_deny", "drop-prefix_allow", "remove-user", 
 	"remove-authenticator", "remove-accounter", "shrink-options", "remove-secret", "reorder-secrets", "add-user", "change-rule", "same-again",
 	"move-deny-to-allow", "move-allow-to-deny", "swap-deny-allow", "shift-deny-allow-boundary", "add-deny",
 	"orphan-users", "unregistered-provider-type", "empty-prefixes", "shrink-prefixes", "unregistered-handler-type",
+	"flip-action", "change-key-character",
 	"invalid-syntax", "invalid-type", "no-users", "no-secrets", "empty-document"}
 
 func c16Edit(r *gen.R, prev config.ServerConfig, edit string) (cfg *config.ServerConfig, raw map[string][]byte) {
@@ -317,6 +322,26 @@ func c16Edit(r *gen.R, prev config.ServerConfig, edit string) (cfg *config.Serve
 		if i := pickUser(); i >= 0 {
 			c.Users[i].Commands = []config.Command{{Name: "show", Action: config.DENY}}
 		}
+	case "flip-action":
+		// same document length: permit <-> deny on one command of one user
+		if i := pickUser(); i >= 0 && len(c.Users[i].Commands) > 0 {
+			k := r.Intn(len(c.Users[i].Commands))
+			if c.Users[i].Commands[k].Action == config.PERMIT {
+				c.Users[i].Commands[k].Action = config.DENY
+			} else {
+				c.Users[i].Commands[k].Action = config.PERMIT
+			}
+		}
+	case "change-key-character":
+		// same document length: one character of a scope's key name changes
+		if len(c.Secrets) > 0 {
+			k := r.Intn(len(c.Secrets))
+			key := []byte(c.Secrets[k].Secret.Key)
+			if len(key) > 0 {
+				key[len(key)-1] = "xyz"[r.Intn(3)]
+				c.Secrets[k].Secret.Key = string(key)
+			}
+		}
 	case "same-again":
 	case "invalid-syntax":
 		return nil, map[string][]byte{"yaml": []byte("users: [unclosed\n  - {{{"), "json": []byte(`{"users": [`)}
@@ -342,6 +367,10 @@ func runC16(b *mon.B) {
 	caseNo := 0
 	if b.Thorough() && b.Only < 0 {
 		c16Watcher(b, r.Fork(99))
+	}
+	fileDir, _ := os.MkdirTemp("", "verif-c16-")
+	if fileDir != "" {
+		defer os.RemoveAll(fileDir)
 	}
 	nHist := b.N(160, 19000)
 	for hi := 0; hi < nHist; hi++ {
@@ -375,6 +404,26 @@ func runC16(b *mon.B) {
 			tail = tail[len(tail)-3:]
 		}
 		lo := newDocLoader(format)
+		// every third history reaches the long-lived loader the way the reference server's file
+		// watcher feeds it: Load(path) of one file that is rewritten in place. The file keeps its
+		// modification time (deployment tools that preserve timestamps, coarse file-system
+		// clocks): what is loaded must depend on the content only.
+		viaFile := caseNo%3 == 1 && fileDir != ""
+		load := func(doc []byte) error {
+			if !viaFile {
+				return lo.Unmarshal(doc)
+			}
+			path := filepath.Join(fileDir, "tacquito."+format)
+			if err := os.WriteFile(path, doc, 0644); err != nil {
+				viaFile = false
+				return lo.Unmarshal(doc)
+			}
+			os.Chtimes(path, c16FileTime, c16FileTime)
+			return lo.Load(path)
+		}
+		if viaFile {
+			b.Class("history-via-file/%s", format)
+		}
 		type pub struct {
 			val  config.ServerConfig
 			snap string
@@ -386,7 +435,7 @@ func runC16(b *mon.B) {
 		bad := false
 		for step, d := range docs {
 			doc := d.Raw[format]
-			err := lo.Unmarshal(doc)
+			err := load(doc)
 			fresh := newDocLoader(format)
 			ferr := fresh.Unmarshal(doc)
 			wit := func() map[string]interface{} {
